@@ -6,22 +6,13 @@
 -/
 import Y0.Lemmas.CfCgSem
 import Y0.Lemmas.CfIdStar
+import Y0.Lemmas.CfBasic
 
 namespace Y0
 namespace Cf
 
-/-- a well-formed event dict: no repeated key, every value named after its variable -/
-structure EvOK (ev : Event) : Prop where
-  nodup : ev.keys.Nodup
-  names : ∀ p ∈ ev, p.2.name = p.1.name
-
 /-- every event variable is not self-intervened, and there is one -/
 def KeysNSI (ev : Event) : Prop := ev ≠ [] ∧ ∀ p ∈ ev, isNotSelfIntervened p.1 = true
-
-theorem lemma24Holds_nsi {cf : MG Var} {ev : Event} {a b : Var} (h : lemma24Holds cf ev a b = true) :
-    isNotSelfIntervened a = isNotSelfIntervened b := by
-  simp only [lemma24Holds, isPwEquivalent, hasSameFunction, Bool.and_eq_true, beq_iff_eq] at h
-  exact h.2.1.1.2
 
 theorem keysNSI_updateEvent (ev : Event) (pref elim : Var) (hpe : pref ≠ elim)
     (hnsi : isNotSelfIntervened pref = isNotSelfIntervened elim) (h : KeysNSI ev) : KeysNSI (updateEvent ev pref elim) := by
